@@ -8,7 +8,7 @@
    started from any state satisfying the invariant - in particular from Atom(). *)
 From Coq Require Import Reals List Bool.
 From DS Require Import Base.RMat Base.C09_GNum Model.C09_Prims Gen.C09_AtomFormulas Model.C09_AtomADP
-  Proofs.C09_Algebra Proofs.C09_Machine Proofs.C09_Main Proofs.C09_Ctor.
+  Proofs.C09_Algebra Proofs.C09_Machine Proofs.C09_Main Proofs.C09_Ctor Model.C09_Alias Proofs.C09_Alias.
 Import ListNotations.
 Open Scope R_scope.
 
@@ -106,6 +106,23 @@ Print Assumptions C09_constructed_atoms_are_reachable.
 Theorem C09_copy_is_identity : forall (T : Type) (C : cctx T) (s : astate T), step C s OCopy = s.
 Proof. exact @copy_is_identity. Qed.
 Print Assumptions C09_copy_is_identity.
+
+(* Aliasing.  A heap of atoms, each with the identity of its `_U` array and of its `xyz` array; events: a call of an accessor
+   on one atom, a construction, a copy (__copy__ / copy.copy / Atom(a)), each executing rebinding statements.  `source_events`
+   are the rebinding statements of the CURRENT atom.py with the kind of object they install (Gen c09_alias_table: new array,
+   own array, caller's array, the copied atom's array); in-place writes bind nothing.  For every history made of those
+   statements - whatever arrays the caller passes in - no two atoms ever share a tensor or coordinate array. *)
+Theorem C09_no_aliasing : forall evs h, wf h ->
+  Forall (fun ev => Forall (fun e => In e source_events) (evs_of ev)) evs -> wf (hrun h evs).
+Proof. exact no_aliasing. Qed.
+Print Assumptions C09_no_aliasing.
+Theorem C09_source_rebindings_are_fresh_or_own : forallb safe source_events = true.
+Proof. exact source_events_safe. Qed.
+Print Assumptions C09_source_rebindings_are_fresh_or_own.
+(* not vacuous: one statement binding an array of the caller (e.g. `self._U = value`) can make two atoms share it *)
+Theorem C09_param_binding_would_alias : exists h ev, wf h /\ ~ wf (hstep h ev).
+Proof. exact param_binding_aliases. Qed.
+Print Assumptions C09_param_binding_would_alias.
 
 (* the hypotheses are inhabited: Atom() is reachable, Lattice._epsilon of the source is positive, the unit cell and an
    oblique cell (gamma = 60 degrees) satisfy lat_ok, and a history on the oblique cell reaches an anisotropic state *)
